@@ -127,13 +127,18 @@ func loadCorpus() {
 			}
 			continue
 		}
+		// The set must not depend on timing: a template that does not finish
+		// in a minute is a harness error (exit 2), not a silently skipped one.
 		ok := true
 		var outs [2]string
 		for i := 0; i < 2 && ok; i++ {
-			ctx, cancel := context.WithTimeout(context.Background(), 3*time.Second)
+			ctx, cancel := context.WithTimeout(context.Background(), time.Minute)
 			var b strings.Builder
 			panicked, _, _ := harness.Guard(func() { err = t.Run(&b, nil, &scriggo.RunOptions{Context: ctx}) })
 			cancel()
+			if err == context.DeadlineExceeded {
+				harness.Fail("corpus template %s does not terminate within a minute: add it to the exclusion list", n)
+			}
 			if panicked || err != nil {
 				ok = false
 			}
